@@ -302,7 +302,26 @@ func TestVerifC20(t *testing.T) {
 	if r.Thorough() {
 		depth = 6
 	}
-	r.SetBound(fmt.Sprintf("all histories of length %d over {START, STOP, PAUSE, UNPAUSE, 'UNPAUSE lbl', state label, block x (0|1|2 external triggers) x (0|3 dropped frames)}, followed by a final STOP and a block after STOP", depth))
+	r.SetBound(fmt.Sprintf("all histories of length %d over {START, STOP, PAUSE, UNPAUSE, 'UNPAUSE lbl', state label, block x (0|1|2 external triggers) x (0|3 dropped frames)}, followed by a final STOP and a block after STOP; plus all histories of that length starting with START over {START, STOP, PAUSE, UNPAUSE, blocks with 1|260|300|600 external triggers} (the side file's write buffer overflows)", depth))
+	// blocks with hundreds of external triggers: the side file's 4096-byte buffer fills up between two flushes
+	big := []vSFOp{
+		{name: "START", kind: "start"}, {name: "STOP", kind: "stop"},
+		{name: "block(ext=300,drop=0)", kind: "block", ext: 300},
+		{name: "block(ext=1,drop=0)", kind: "block", ext: 1},
+		{name: "block(ext=260,drop=3)", kind: "block", ext: 260, dropped: 3},
+		{name: "PAUSE", kind: "pause"}, {name: "UNPAUSE", kind: "unpause"},
+		{name: "block(ext=600,drop=0)", kind: "block", ext: 600},
+	}
+	for second := range big {
+		second := second
+		r.DFS(fmt.Sprintf("big/START/%s", big[second].name), -1, func(x *vexp.X) vexp.Result {
+			hist := []int{0, second}
+			for len(hist) < depth {
+				hist = append(hist, x.Choose(len(big)))
+			}
+			return vSFRunHistory(x, big, hist)
+		})
+	}
 	for first := range ops {
 		for second := range ops {
 			first, second := first, second
